@@ -26,7 +26,7 @@ const (
 
 var flatCache = map[string][]Leaf{}
 
-func typeKey(t types.Type) string { return types.TypeString(t, nil) }
+func typeKey(t types.Type) string { return types.TypeString(types.Unalias(t), nil) }
 
 func flatten(t types.Type) []Leaf {
 	k := typeKey(t)
